@@ -36,9 +36,11 @@
 (*   entry is evicted ("capacity ... before removing the least recently used  *)
 (*   template").                                                              *)
 (* MECHANISM (liquid/builtin/loaders/mixins.py, choice_loader.py,             *)
-(*   file_system_loader.py) one action per step of the code: Begin (cache     *)
-(*   key), Lookup (LRU get, touches the entry), Check (is_up_to_date),        *)
-(*   Walk (one probe per step, in order), Store (LRU put, evicts), Answer.    *)
+(*   file_system_loader.py) as steps of the code: Begin (cache key and LRU    *)
+(*   get, which touches the entry; a plain root or a miss goes straight to    *)
+(*   the first probe), Check (is_up_to_date of the cached template), Walk     *)
+(*   (one probe per step, in order: a dictionary lookup / one search path),   *)
+(*   Store (LRU put, evicting the least recently used entry; the answer).     *)
 (*   A caching loader INSIDE a ChoiceLoader is asked for get_source only,     *)
 (*   so its cache is never consulted: only the root's cache is state.         *)
 EXTENDS Naturals, Sequences, FiniteSets, TLC, Json
@@ -128,16 +130,17 @@ NsComps == <<"nsfs", "nsstrict", "nschoice">>
 Plain(L) == [i \in 1..Len(PlainComps) |-> Cf(PlainComps[i], FALSE, TRUE, FALSE, 1, "two", EFL, L)]
             \o <<Cf("fs3", FALSE, TRUE, FALSE, 1, "txt", {"empty", "low"}, L)>>
             \o [i \in 1..Len(NsComps) |-> Cf(NsComps[i], FALSE, TRUE, TRUE, 1, "two", EF, L)]
+LF == {"low", "full"}
 Quick == Plain(3) \o
-  << Cf("dict", TRUE, TRUE, FALSE, 1, "two", EF, 4),        Cf("nsfs", TRUE, TRUE, TRUE, 2, "two", EF, 3),
-     Cf("dd", TRUE, TRUE, FALSE, 1, "two", EF, 4),          Cf("nsfs", TRUE, FALSE, TRUE, 1, "two", EF, 3),
-     Cf("fs2", TRUE, TRUE, FALSE, 1, "two", EF, 4),         Cf("nsstrict", TRUE, TRUE, TRUE, 1, "two", EF, 3),
-     Cf("fs2", TRUE, FALSE, FALSE, 1, "two", EF, 4),        Cf("nschoice", TRUE, TRUE, TRUE, 2, "two", EF, 3),
-     Cf("fs2", TRUE, TRUE, TRUE, 2, "two", EF, 3),          Cf("dfs", TRUE, TRUE, FALSE, 1, "two", EF, 4),
-     Cf("fs2", TRUE, FALSE, TRUE, 2, "two", EF, 3),         Cf("dfs", TRUE, FALSE, FALSE, 2, "two", EF, 3),
-     Cf("fs2noext", TRUE, TRUE, FALSE, 2, "two", EF, 3),    Cf("fsdfs", TRUE, TRUE, FALSE, 2, "two", EF, 3),
-     Cf("nested", TRUE, TRUE, FALSE, 2, "two", EF, 3),      Cf("nestedlast", TRUE, TRUE, FALSE, 1, "two", EF, 3),
-     Cf("nestedlast", TRUE, FALSE, FALSE, 1, "two", EF, 3) >>
+  << Cf("dict", TRUE, TRUE, FALSE, 1, "two", EF, 4),        Cf("nsfs", TRUE, TRUE, TRUE, 2, "two", LF, 3),
+     Cf("dd", TRUE, TRUE, FALSE, 1, "two", LF, 3),          Cf("nsfs", TRUE, FALSE, TRUE, 1, "two", LF, 3),
+     Cf("fs2", TRUE, TRUE, FALSE, 1, "two", LF, 4),         Cf("nsstrict", TRUE, TRUE, TRUE, 1, "two", LF, 3),
+     Cf("fs2", TRUE, FALSE, FALSE, 1, "two", LF, 4),        Cf("nschoice", TRUE, TRUE, TRUE, 2, "two", LF, 3),
+     Cf("fs2", TRUE, TRUE, TRUE, 2, "two", LF, 3),          Cf("dfs", TRUE, TRUE, FALSE, 1, "two", LF, 3),
+     Cf("fs2", TRUE, FALSE, TRUE, 2, "two", LF, 3),         Cf("dfs", TRUE, FALSE, FALSE, 2, "two", LF, 3),
+     Cf("fs2noext", TRUE, TRUE, FALSE, 2, "two", LF, 3),    Cf("fsdfs", TRUE, TRUE, FALSE, 2, "two", LF, 3),
+     Cf("nested", TRUE, TRUE, FALSE, 2, "two", LF, 3),      Cf("nestedlast", TRUE, TRUE, FALSE, 1, "two", LF, 3),
+     Cf("nestedlast", TRUE, FALSE, FALSE, 1, "two", LF, 3) >>
 CachingComps == <<"dict", "dd", "fs2", "fs2noext", "dfs", "fsdfs", "nested", "nestedlast">>
 SeqOfSet(S) == LET RECURSIVE f(_) f(T) == IF T = {} THEN <<>> ELSE LET x == CHOOSE y \in T : TRUE IN <<x>> \o f(T \ {x}) IN f(S)
 Thorough == Plain(4) \o
@@ -171,9 +174,12 @@ PT(n, ns) == ProbeTab[cf.comp][n, ns]
 Cells == CellTab[cf.comp][cf.names]
 DecoyStores == ExtStoreTab[cf.comp]
 
-Vias == IF NSKey THEN {"none", "kwarg", "context", "both"} ELSE {"none"}   \* "both": the keyword names ns, the context another namespace "nx"
+(* a request names a template and possibly a namespace.  HOW the namespace travels (keyword argument, render-context globals, or *)
+(* both, the keyword winning over another namespace "nx" in the context) does not change the model: it is a choice of the     *)
+(* concretisation, like sync / async and get_template / include / render.                                                     *)
+ReqSpaces == IF NSKey THEN Spaces \cup {"none"} ELSE {"none"}
 
-NoReq == [name |-> "", via |-> "none", ns |-> "none"]
+NoReq == [name |-> "", ns |-> "none"]
 NotFound == [found |-> FALSE, store |-> "", key |-> "", ver |-> 0, det |-> FALSE]
 Ver(c) == IF c \in Cells THEN store[c] ELSE 0
 
@@ -192,7 +198,7 @@ Ops == Len(hist) - 1
 
 -----------------------------------------------------------------------------
 (* REQUIREMENT: the answer of the non-caching composition on the stores as they are now *)
-SeenNs(r) == IF r.via = "none" THEN "none" ELSE r.ns            \* a keyword argument takes priority over the context
+SeenNs(r) == r.ns
 Found(p) == [found |-> TRUE, store |-> p.store, key |-> p.key, ver |-> Ver(Cell(p)), det |-> p.det]
 Ref(r) == LET ps == PT(r.name, SeenNs(r))
               hits == { i \in 1..Len(ps) : Ver(Cell(ps[i])) > 0 }
@@ -201,7 +207,7 @@ Ref(r) == LET ps == PT(r.name, SeenNs(r))
 
 -----------------------------------------------------------------------------
 (* MECHANISM *)
-CKey(r) == IF ~NSKey \/ r.via = "none" THEN r.name ELSE r.ns \o "/" \o r.name     \* CachingLoaderMixin.cache_key
+CKey(r) == IF ~NSKey \/ r.ns = "none" THEN r.name ELSE r.ns \o "/" \o r.name     \* CachingLoaderMixin.cache_key
 Has(k) == \E i \in 1..Len(cache) : cache[i].key = k
 Entry(k) == cache[CHOOSE i \in 1..Len(cache) : cache[i].key = k]
 Without(k) == SelectSeq(cache, LAMBDA e : e.key # k)
@@ -209,56 +215,59 @@ Touch(k) == Append(Without(k), Entry(k))
 Insert(e) == Append(IF Has(e.key) THEN Without(e.key) ELSE IF Len(cache) >= Cap THEN Tail(cache) ELSE cache, e)
 UpToDate(a) == ~a.det \/ Ver([store |-> a.store, key |-> a.key]) = a.ver         \* dictionaries have no `uptodate`: always "up to date"
 
-Begin(name, via, ns) ==
-  /\ pc = "idle" /\ Ops < MaxLen
-  /\ req' = [name |-> name, via |-> via, ns |-> ns]
-  /\ idx' = 1 /\ ans' = NotFound
-  /\ IF RootCaching THEN pc' = "lookup" /\ how' = "" ELSE pc' = "walk" /\ how' = "direct"
-  /\ UNCHANGED <<cf, store, wr, cache, last, hist>>
-
-Lookup ==                                   \* self.cache[cache_key]: a hit moves the entry to the most-recent end
-  /\ pc = "lookup"
-  /\ IF Has(CKey(req))
-     THEN /\ cache' = Touch(CKey(req))
-          /\ IF AutoReload THEN pc' = "check" /\ UNCHANGED <<ans, how>>
-             ELSE pc' = "answer" /\ ans' = Entry(CKey(req)).ans /\ how' = "nocheck"
-     ELSE pc' = "walk" /\ how' = "miss" /\ UNCHANGED <<cache, ans>>
-  /\ UNCHANGED <<cf, store, wr, req, idx, last, hist>>
-
-Check ==                                    \* cached_template.is_up_to_date()
-  /\ pc = "check"
-  /\ IF UpToDate(Entry(CKey(req)).ans)
-     THEN pc' = "answer" /\ ans' = Entry(CKey(req)).ans /\ how' = "hit"
-     ELSE pc' = "walk" /\ how' = "reload" /\ UNCHANGED ans
-  /\ UNCHANGED <<cf, store, wr, cache, req, idx, last, hist>>
-
-Walk ==                                     \* one probe: a dictionary lookup / one search path
-  /\ pc = "walk"
-  /\ LET ps == PT(req.name, SeenNs(req))
-     IN IF idx > Len(ps) THEN pc' = "answer" /\ UNCHANGED <<ans, idx>>                     \* TemplateNotFoundError; the cache is left alone
-        ELSE IF Ver(Cell(ps[idx])) > 0
-             THEN ans' = Found(ps[idx]) /\ pc' = (IF RootCaching THEN "store" ELSE "answer") /\ UNCHANGED idx
-             ELSE idx' = idx + 1 /\ UNCHANGED <<ans, pc>>
-  /\ UNCHANGED <<cf, store, wr, cache, req, how, last, hist>>
-
-Store ==                                    \* self.cache[cache_key] = template
-  /\ pc = "store"
-  /\ cache' = Insert([key |-> CKey(req), ans |-> ans])
-  /\ pc' = "answer"
-  /\ UNCHANGED <<cf, store, wr, req, idx, ans, how, last, hist>>
-
 (* what the docs leave open: a cached template that the up-to-date check accepted although the composition would now answer otherwise *)
-Unspecified == how = "hit" /\ ans # Ref(req)
-Answer ==
-  /\ pc = "answer"
-  /\ LET ref == Ref(req)
-         rec == [op |-> "get", name |-> req.name, via |-> req.via, ns |-> req.ns, ckey |-> CKey(req),
-                 ref |-> ref, mech |-> ans,
-                 adm |-> IF Unspecified THEN <<ans, ref>> ELSE <<ans>>,
-                 how |-> IF Unspecified THEN (IF ans.det THEN "shadowed" ELSE "undetectable") ELSE how]
+Unspecified(r, a, h) == h = "hit" /\ a # Ref(r)
+(* the request r is answered with a, reached along the mechanism path h: record it with the requirement's answer and the admissible set *)
+Done(r, a, h) ==
+  /\ LET ref == Ref(r)
+         rec == [op |-> "get", name |-> r.name, ns |-> r.ns, ckey |-> CKey(r),
+                 ref |-> ref, mech |-> a,
+                 adm |-> IF Unspecified(r, a, h) THEN <<a, ref>> ELSE <<a>>,
+                 how |-> IF Unspecified(r, a, h) THEN (IF a.det THEN "shadowed" ELSE "undetectable") ELSE h]
      IN last' = rec /\ hist' = Append(hist, rec)
   /\ pc' = "idle" /\ req' = NoReq /\ idx' = 0 /\ ans' = NotFound /\ how' = ""
-  /\ UNCHANGED <<cf, store, wr, cache>>
+
+(* probe number i of request r: a dictionary lookup / one search path (all probes before i were absent) *)
+Probe(r, i, h) ==
+  LET ps == PT(r.name, r.ns)
+  IN IF Ver(Cell(ps[i])) > 0
+     THEN IF RootCaching
+          THEN pc' = "store" /\ req' = r /\ idx' = i /\ ans' = Found(ps[i]) /\ how' = h /\ UNCHANGED <<cache, last, hist>>
+          ELSE Done(r, Found(ps[i]), h) /\ UNCHANGED cache
+     ELSE IF i = Len(ps)
+          THEN Done(r, NotFound, h) /\ UNCHANGED cache                 \* TemplateNotFoundError; the cache is left alone
+          ELSE pc' = "walk" /\ req' = r /\ idx' = i + 1 /\ ans' = NotFound /\ how' = h /\ UNCHANGED <<cache, last, hist>>
+
+(* Environment.get_template: a plain root starts probing; a caching root computes the cache key and looks it up -- *)
+(* self.cache[cache_key]: a hit moves the entry to the most-recent end; a miss goes on to the first probe          *)
+Begin(name, ns) ==
+  /\ pc = "idle" /\ Ops < MaxLen
+  /\ LET r == [name |-> name, ns |-> ns]
+     IN IF ~RootCaching THEN Probe(r, 1, "direct")
+        ELSE IF ~Has(CKey(r)) THEN Probe(r, 1, "miss")
+        ELSE /\ cache' = Touch(CKey(r))
+             /\ IF AutoReload
+                THEN pc' = "check" /\ req' = r /\ idx' = 0 /\ ans' = NotFound /\ how' = "" /\ UNCHANGED <<last, hist>>
+                ELSE Done(r, Entry(CKey(r)).ans, "nocheck")
+  /\ UNCHANGED <<cf, store, wr>>
+
+Check ==                                    \* cached_template.is_up_to_date(); not up to date: load again, starting at the first probe
+  /\ pc = "check"
+  /\ IF UpToDate(Entry(CKey(req)).ans)
+     THEN Done(req, Entry(CKey(req)).ans, "hit") /\ UNCHANGED cache
+     ELSE Probe(req, 1, "reload")
+  /\ UNCHANGED <<cf, store, wr>>
+
+Walk ==                                     \* the next loader / search path
+  /\ pc = "walk"
+  /\ Probe(req, idx, how)
+  /\ UNCHANGED <<cf, store, wr>>
+
+Store ==                                    \* self.cache[cache_key] = template, then the template is returned
+  /\ pc = "store"
+  /\ cache' = Insert([key |-> CKey(req), ans |-> ans])
+  /\ Done(req, ans, how)
+  /\ UNCHANGED <<cf, store, wr>>
 
 Write(c) ==
   /\ pc = "idle" /\ Ops < MaxLen - 1 /\ wr[c] < MaxVer          \* the last operation of a history is a request
@@ -275,8 +284,8 @@ Delete(c) ==
   /\ hist' = Append(hist, last')
   /\ UNCHANGED <<cf, wr, cache, pc, req, idx, ans, how>>
 
-Next == \/ \E n \in ReqNames, v \in Vias, s \in Spaces : (v = "none" => s = CHOOSE x \in Spaces : TRUE) /\ Begin(n, v, s)
-        \/ Lookup \/ Check \/ Walk \/ Store \/ Answer
+Next == \/ \E n \in ReqNames, s \in ReqSpaces : Begin(n, s)
+        \/ Check \/ Walk \/ Store
         \/ \E c \in Cells : Write(c) \/ Delete(c)
 Spec == Init /\ [][Next]_vars
 
@@ -285,7 +294,9 @@ IsGet == pc = "idle" /\ last.op = "get"
 Cached == RootCaching /\ IsGet
 
 (* the walk, probe by probe, ends at the first probe that exists: the declarative requirement *)
-WalkFindsFirst == (pc = "answer" /\ how \in {"direct", "miss", "reload"}) => ans = Ref(req)
+WalkSkipsOnlyAbsent == pc = "walk" => \A j \in 1..(idx - 1) : Ver(Cell(PT(req.name, req.ns)[j])) = 0
+WalkFindsFirst == /\ pc = "store" => ans = Ref(req)
+                  /\ (pc = "idle" /\ last.op = "get" /\ last.how \in {"direct", "miss", "reload"}) => last.mech = last.ref
 (* a non-caching composition (also one with an inert inner cache) always gives the requirement's answer *)
 NonCachingExact == (IsGet /\ ~RootCaching) => last.mech = last.ref /\ last.adm = <<last.ref>>
 (* with auto_reload the caching root answers like the non-caching composition, except in the two unspecified situations *)
@@ -311,9 +322,10 @@ CacheHoldsLoaded == \A i \in 1..Len(cache) : cache[i].ans.found /\ cache[i].ans.
 (* a NotFound answer is always current: absence is never cached *)
 NotFoundIsCurrent == (IsGet /\ ~last.mech.found /\ last.how # "nocheck") => ~last.ref.found
 (* with auto_reload = FALSE a cached key keeps its version: the answer is the entry's, untouched by the stores *)
-NoCheckServesEntry == [][(pc = "lookup" /\ ~AutoReload /\ Has(CKey(req))) => (pc' = "answer" /\ ans' = Entry(CKey(req)).ans)]_vars
+NoCheckServesEntry == [][(pc = "idle" /\ pc' = "idle" /\ last'.op = "get" /\ RootCaching /\ ~AutoReload /\ Has(last'.ckey))
+                            => (last'.how = "nocheck" /\ last'.mech = Entry(last'.ckey).ans /\ store' = store)]_vars
 (* the stores are changed by Write / Delete only; a request never writes *)
-GetsDoNotWrite == [][pc # "idle" => (store' = store /\ wr' = wr)]_vars
+GetsDoNotWrite == [][(pc # "idle" \/ pc' # "idle" \/ last'.op = "get") => (store' = store /\ wr' = wr)]_vars
 
 View == <<cf, store, wr, cache, pc, req, idx, ans, how, last>>
 Emit == IsGet => PrintT(ToJson([comp |-> cf.comp, tree |-> Tree, auto |-> AutoReload, nskey |-> NSKey, cap |-> Cap, len |-> MaxLen, steps |-> hist]))
